@@ -117,6 +117,7 @@ func Main(prop string, scenarios func(tier string) []*vsched.Scenario, budget Bu
 	var perScen []map[string]interface{}
 	var samples []interface{}
 	vacuous := []string{}
+	smoke := []string{}
 	for ji, o := range outs {
 		if o.Err != "" {
 			lib.Engine("%s", o.Err)
@@ -148,6 +149,12 @@ func Main(prop string, scenarios func(tier string) []*vsched.Scenario, budget Bu
 			r.NotExhaustive(fmt.Sprintf("%s: internal deadline reached; bound %d of %d completed", st.Scenario, st.BoundDone, st.BoundAsked))
 		}
 		for _, c := range st.Caps {
+			if strings.HasPrefix(c, "default schedule only") {
+				// a declared smoke scenario (one schedule of a very long execution): listed, not part of the exhaustive claim
+				ps["smoke_run"] = c
+				smoke = append(smoke, st.Scenario)
+				continue
+			}
 			r.NotExhaustive(fmt.Sprintf("%s: %s", st.Scenario, c))
 		}
 		if st.Outcomes <= 1 && st.Execs > 1 {
@@ -188,6 +195,7 @@ func Main(prop string, scenarios func(tier string) []*vsched.Scenario, budget Bu
 	r.Cov["racy_fields_made_scheduling_points"] = keys(racy)
 	r.Cov["race_pairs_seen"] = keys(pairs)
 	r.Cov["vacuous_scenarios"] = vacuous
+	r.Cov["smoke_scenarios_one_schedule_only"] = smoke
 	r.Assume = append([]string{
 		"sequentially consistent interleavings only (no weak-memory behaviours of racy code)",
 		"runtime model of channels/select/mutex/waitgroup/atomics/timers (vsched), bound to the real runtime by the conformance battery",
